@@ -53,7 +53,17 @@ func vfC26SetTerm(set map[string]struct{}) string {
 	return "(VSet " + cList(ts) + ")"
 }
 
+// vfC26Elems: the elements of a bitmap (opaque to the model, which only passes them through); large
+// bitmaps are summarised as [2^40; cardinality; min; max; checksum].
 func vfC26Elems(bm *roaring.Bitmap) string {
+	if bm.GetCardinality() > 64 {
+		var h uint64 = 1469598103934665603
+		it := bm.Iterator()
+		for it.HasNext() {
+			h = (h ^ uint64(it.Next())) * 1099511628211
+		}
+		return cNList([]uint64{1 << 40, bm.GetCardinality(), uint64(bm.Minimum()), uint64(bm.Maximum()), h >> 16})
+	}
 	arr := bm.ToArray()
 	xs := make([]uint64, len(arr))
 	for i, a := range arr {
@@ -382,7 +392,7 @@ func TestVerifC26(t *testing.T) {
 				kind = 2
 			}
 			ps = append(ps, vfC26Pending{codec: c, kind: kind, in: []byte{byte(x)}, class: "short"})
-			if x%3 == int(vfSeed()%3) {
+			if x%8 == int(vfSeed()%8) || vfTier() == "thorough" {
 				ps = append(ps, vfC26Pending{codec: c, kind: kind, in: []byte{1, byte(x)}, class: "short"})
 				ps = append(ps, vfC26Pending{codec: c, kind: kind, in: []byte{1, byte(x), byte(r.U64())}, class: "short"})
 			}
@@ -431,6 +441,10 @@ func TestVerifC26(t *testing.T) {
 			obs = cSome(rs.Out)
 		}
 		key := fmt.Sprintf("%d:%x", p.kind, p.in)
+		if len(p.in) > 2500 { // bitmap-container blobs: Go-side oracle only (the Coq term would be ~100 kB)
+			classes[p.codec+"/"+p.class+"/oracle-only"]++
+			continue
+		}
 		if seen[key] {
 			continue
 		}
